@@ -7,7 +7,8 @@ were rendered into the file, in file order, wrapping around at end of file, each
 it in the file (and nothing from the previous pass).  The models are tied to the real decoders by the differential
 harness (harness/cmd/c07, `Pandora.Drv.C07`); the helper lemmas are in `Pandora/Proofs/C07*.lean`.
 -/
-import Pandora.Proofs.C07Deliver
+import Pandora.Proofs.C07Extra
+import Pandora.Bridge.C07
 
 namespace Pandora.Props.C07
 open Pandora.Model.C07 Pandora.Spec.C07 Pandora.Proofs.C07
@@ -178,6 +179,115 @@ theorem C07_count_raw (items : List Item) (hi : itemsOK .raw items = true) :
     | req u t b => simp [itemOK] at hi
     | frame t fr => simp only [expFrames, countReqs, List.length_cons]; rw [ihr]
 
+/-! ### the model is the model of the CURRENT source (facts regenerated by /verif/gen on every run) -/
+
+/-- the decoders in /repo obtain their lines the way the pass functions of the model describe: uri through a
+`bufio.Scanner` with the default buffer (token limit `maxTok` = bufio.MaxScanTokenSize), uripost and raw through
+`ReadString('\n')` (no limit); each of them applies `strings.TrimSpace` to the line, stores a clone of the header
+accumulator in the ammo and uses the methods GET / POST (lemmas of `Pandora.Bridge.C07` about `Pandora.Gen.AmmoDec`) -/
+theorem C07_regenerated_readers :
+    Pandora.Gen.AmmoDec.uriReader = .scanner maxTok ∧ Pandora.Gen.AmmoDec.uripostReader = .readString 10
+      ∧ Pandora.Gen.AmmoDec.rawReader = .readString 10
+      ∧ Pandora.Gen.AmmoDec.uriMethod = getBytes ∧ Pandora.Gen.AmmoDec.uripostMethod = postBytes
+      ∧ Pandora.Gen.AmmoDec.uriHeaderInit = "_.Clone()" ∧ Pandora.Gen.AmmoDec.uripostHeaderInit = "_.Clone()"
+      ∧ Pandora.Gen.AmmoDec.jsonURLPrefix = httpPrefix :=
+  ⟨Pandora.Bridge.C07.uriReader_eq, Pandora.Bridge.C07.uripostReader_eq, Pandora.Bridge.C07.rawReader_eq,
+   Pandora.Bridge.C07.methods_eq.1, Pandora.Bridge.C07.methods_eq.2,
+   Pandora.Bridge.C07.headerInit_eq.1, Pandora.Bridge.C07.headerInit_eq.2, Pandora.Bridge.C07.json_facts.1⟩
+
+/-! ### line length: the uri format has the `bufio.Scanner` token limit (64 KiB), uripost and raw have none -/
+
+/-- the uri round trip WITHOUT the hypothesis that every line fits a Scanner token.  It is FALSE for the code
+(`C07_uri_roundtrip_counterexample`); `C07_uri_roundtrip` is the part that holds (`linesFit`: every line of the file,
+blanks and `\r` included, has fewer than 65536 bytes). -/
+def C07_uri_roundtrip_statement : Prop :=
+  ∀ (items : List Item) (lay : Layout) (k : Nat) (pre : Bool),
+    itemsOK .uri items = true → layoutOK lay = true →
+    uriDeliver (render .uri items lay) k pre = cycled (expAmmo .uri [] items) k
+
+/-- the part that holds: every line shorter than the Scanner limit -/
+theorem C07_uri_roundtrip_partial (items : List Item) (lay : Layout) (k : Nat) (pre : Bool)
+    (hi : itemsOK .uri items = true) (hl : layoutOK lay = true) (hf : linesFit (render .uri items lay) = true) :
+    uriDeliver (render .uri items lay) k pre = cycled (expAmmo .uri [] items) k :=
+  C07_uri_roundtrip items lay k pre hi hl hf
+
+/-- a uri file whose first line has 65536 bytes or more is not delivered wrongly, it is REFUSED: the decoder's
+`bufio.Scanner` (default buffer) stops with `token too long`, in either mode, before anything is handed out -/
+theorem C07_uri_line_limit (line rest : Bytes) (k : Nat) (pre : Bool) (hk : 0 < k)
+    (hline : LF ∉ line) (hlong : maxTok ≤ line.length) :
+    uriDeliver (line ++ LF :: rest) k pre = ([], .err .toolong) := by
+  unfold uriDeliver
+  rw [uriPass_toolong line (LF :: rest) [] hline hlong (Or.inr ⟨rest, rfl⟩)]
+  cases pre
+  · simp [deliver]; omega
+  · simp [deliver]
+
+/-- the limit is real: the single entry `/aaa…a` with a target of 65536 bytes is a well-formed uri entry, and the
+provider delivers nothing of it (compare `C07_uripost_any_line_length`: the same target is fine in uripost) -/
+theorem C07_uri_roundtrip_counterexample : ¬ C07_uri_roundtrip_statement := by
+  intro hst
+  have hi : itemsOK .uri [.req (longTarget 65535) [] []] = true := by
+    have := longTarget_ok 65535
+    simp only [itemsOK, List.all_cons, List.all_nil, itemOK, this]
+    decide
+  have h := hst [.req (longTarget 65535) [] []] {} 1 false hi (by decide)
+  have hfile : render .uri [.req (longTarget 65535) [] []] {} = longTarget 65535 ++ LF :: [] := by
+    simp [render, renderItems, renderBlanks, content, payload]
+  rw [hfile, C07_uri_line_limit (longTarget 65535) [] 1 false (by omega) (longTarget_noLF _)
+    (by rw [longTarget_length]; decide)] at h
+  have h2 := congrArg Prod.snd h
+  simp [cycled, expAmmo] at h2
+
+/-- uripost reads its lines with `ReadString`: a request line of ANY length is one line (here a target of `n + 1`
+bytes for every `n`, any tag, any body, any layout, any limit, both modes) -/
+theorem C07_uripost_any_line_length (n : Nat) (t b : Bytes) (lay : Layout) (k : Nat) (pre : Bool)
+    (ht : tagOK t = true) (hb : sizeOK b.length = true) (hl : layoutOK lay = true) :
+    uripostDeliver true (render .uripost [.req (longTarget n) t b] lay) k pre
+      = cycled [{ method := postBytes, url := longTarget n, body := b, tag := t, hdrs := [] }] k := by
+  have hi : itemsOK .uripost [.req (longTarget n) t b] = true := by
+    simp [itemsOK, itemOK, longTarget_ok, ht, hb]
+  rw [C07_uripost_roundtrip _ lay k pre hi hl]
+  simp [expAmmo]
+
+/-- raw: a size line of any length (here a tag of `n + 1` bytes) is one line -/
+theorem C07_raw_any_line_length (n : Nat) (fr : Bytes) (lay : Layout) (k : Nat) (pre : Bool)
+    (hne : fr ≠ []) (hs : sizeOK fr.length = true) (hl : layoutOK lay = true) :
+    rawDeliver (render .raw [.frame (longTarget n) fr] lay) k pre = cycled [{ frame := fr, tag := longTarget n }] k := by
+  have ht : tagOK (longTarget n) = true := by
+    simp [tagOK, (noLF_iff _).mpr (longTarget_noLF n), longTarget_reverse_edge]
+  have hi : itemsOK .raw [.frame (longTarget n) fr] = true := by
+    simp [itemsOK, itemOK, ht, hs, hne]
+  rw [C07_raw_frames _ lay k pre hi hl]
+  simp [expFrames]
+
+/-! ### scope of an in-file header line (statements about the Spec `expAmmo`, i.e. about what the round-trip
+theorems say is delivered) -/
+
+/-- `[k: v]` applies to the entries AFTER it: the pass splits at the header line, the entries before it are those of
+the file cut there, and every entry after it carries `v` for the canonical key until another header line redefines it -/
+theorem C07_header_applies_after (f : Fmt) (pre post : List Item) (k v : Bytes) (h : Hdrs)
+    (hn : noRedef (canonKey k) post = true) :
+    expAmmo f h (pre ++ .hdr k v :: post) = expAmmo f h pre ++ expAmmo f (hset (accHdrs h pre) k v) post ∧
+    ∀ a ∈ expAmmo f (hset (accHdrs h pre) k v) post, hget a.hdrs (canonKey k) = some v := by
+  constructor
+  · rw [expAmmo_append]; rfl
+  · exact expAmmo_keeps f (canonKey k) v post _ (hget_hset_same _ k v) hn
+
+/-- … and NOT to the entries before it: they are delivered exactly as if the file ended before the header line -/
+theorem C07_header_not_before (f : Fmt) (pre post : List Item) (k v : Bytes) (h : Hdrs) :
+    (expAmmo f h (pre ++ .hdr k v :: post)).take (expAmmo f h pre).length = expAmmo f h pre := by
+  rw [expAmmo_append, List.take_left']
+  rfl
+
+/-- the limit only cuts: what is delivered under a limit `k` is the first `k` of what is delivered under any larger
+limit (so `k` can be read as "the first k acquisitions", also of a provider that runs without a limit) -/
+theorem C07_limit_prefix {α : Type} (pass : List α) (k k' : Nat) (hk : k ≤ k') :
+    (cycled pass k').1.take k = (cycled pass k).1 := by
+  unfold cycled
+  split
+  · simp
+  · exact cycleTake_prefix pass k k' hk
+
 /-! ### from decoded ammo to the request the gun receives (`BuildRequest`), and the executable Spec -/
 
 /-- on request targets where the model knows `net/url`, every delivered ammo materialises (`Acquire` →
@@ -291,6 +401,24 @@ example : (uripostDeliver true (render .uripost exPost exLay) 5 false).1.length 
 example : (rawDeliver (render .raw exRaw exLay2) 3 true).1.length = 3 := by
   rw [C07_raw_frames exRaw exLay2 3 true (by decide) (by decide)]
   exact (C07_wraparound _ (by decide) 3).2.1
+
+/-- the hypotheses of `C07_uri_line_limit` are met by a real line: 65536 letters (no newline among them) -/
+example : LF ∉ longTarget 65535 ∧ maxTok ≤ (longTarget 65535).length :=
+  ⟨longTarget_noLF _, by rw [longTarget_length]; decide⟩
+
+/-- `C07_uripost_any_line_length` / `C07_raw_any_line_length` with concrete arguments: a line of more than 100000 bytes -/
+example : (uripostDeliver true (render .uripost [.req (longTarget 100000) [116] [98, 10, 98]] exLay2) 3 true).1.length = 3 := by
+  rw [C07_uripost_any_line_length 100000 [116] [98, 10, 98] exLay2 3 true (by decide) (by decide) (by decide)]
+  exact (C07_wraparound _ (by simp) 3).2.1
+
+example : (rawDeliver (render .raw [.frame (longTarget 70000) [71]] exLay2) 2 false).2 = .eof := by
+  rw [C07_raw_any_line_length 70000 [71] exLay2 2 false (by simp) (by decide) (by decide)]
+  exact (C07_wraparound _ (by simp) 2).1
+
+/-- `C07_header_applies_after` on the uri example: `[X-A: v]` sits between the two requests and nothing redefines it -/
+example : noRedef (canonKey [88, 45, 65]) [Item.req [47, 98, 63, 113, 61, 49] [109, 121, 32, 116, 97, 103] []] = true
+    ∧ exItems = [.req [47, 97] [116] []] ++ .hdr [88, 45, 65] [118] :: [.req [47, 98, 63, 113, 61, 49] [109, 121, 32, 116, 97, 103] []] := by
+  decide
 
 /-- http/json: a known entity -/
 example : ([{ host := [101, 120, 97, 109, 112, 108, 101, 46, 99, 111, 109], method := [80, 79, 83, 84], uri := [47, 97, 63, 98, 61, 99], tag := [109, 121, 32, 116, 97, 103],
